@@ -71,7 +71,7 @@ where
         #[cfg(feature = "full-lexer")]
         let lxr =
             lxr.filter_ok(|(tok, _)| !matches!(tok, Tok::Comment { .. } | Tok::NonLogicalNewline));
-        Self::parse_tokens(lxr, source_path)
+        Self::parse_tokens(lxr, source_path).map_err(|err| error_not_before(err, offset))
     }
     fn lex_starts_at(
         source: &str,
@@ -384,7 +384,17 @@ pub fn parse_starts_at(
     offset: TextSize,
 ) -> Result<ast::Mod, ParseError> {
     let lxr = lexer::lex_starts_at(source, mode, offset);
-    parse_tokens(lxr, mode, source_path)
+    parse_tokens(lxr, mode, source_path).map_err(|err| error_not_before(err, offset))
+}
+
+/// An error can never lie before the start offset. Errors that are not tied to a token (an
+/// unexpected end of an empty input, "no statement") are reported by code that only sees the
+/// tokens and places them at zero.
+fn error_not_before(mut err: ParseError, offset: TextSize) -> ParseError {
+    if err.offset < offset {
+        err.offset = offset;
+    }
+    err
 }
 
 /// Parse an iterator of [`LexResult`]s using the specified [`Mode`].
